@@ -259,6 +259,35 @@ func extractGrpcBroker(p *pkgs, f *facts) {
 		}
 	}
 	acceptLeaves = acceptLeaves && refs > 0
+	// both streamer constructors build `send` with make(chan *sendErr) — one argument, no capacity
+	unbuf, nCtor := true, 0
+	for _, ctor := range []string{"newGRPCBrokerServer", "newGRPCBrokerClient"} {
+		fd := p.fn("", ctor)
+		if fd == nil {
+			f.miss = append(f.miss, ctor)
+			unbuf = false
+			continue
+		}
+		found := false
+		ast.Inspect(fd.Body, func(n ast.Node) bool {
+			kv, ok := n.(*ast.KeyValueExpr)
+			if !ok || exprString(kv.Key) != "send" {
+				return true
+			}
+			found = true
+			ce, ok := kv.Value.(*ast.CallExpr)
+			if !ok || exprString(ce.Fun) != "make" || len(ce.Args) != 1 {
+				unbuf = false
+			}
+			return true
+		})
+		if !found {
+			unbuf = false
+		}
+		nCtor++
+	}
+	f.lean = append(f.lean, fmt.Sprintf("def grpcStreamer : GrpcBroker.StreamerParams := ⟨%s⟩", leanBool(unbuf && nCtor == 2)))
+	f.set("grpcStreamer", map[string]interface{}{"sendUnbuffered": unbuf && nCtor == 2})
 	// dialGRPCConn: some option appended is exactly grpc.FailOnNonTempDialError(true)
 	failsFast := false
 	if dg := p.fn("", "dialGRPCConn"); dg != nil {
